@@ -118,7 +118,7 @@ def run_case(rec, k):
     if c["fam"] == "vun":
         v, vvals = mkvec(c["nl"], lu, COMP_VALS, k)
         op = c["op"]
-        if op in ("rdiv2", "rmul2", "neg", "pow2") and c["lu"] % 2 == 1:
+        if op in ("rdiv2", "rmul2", "neg", "pow2", "powm1f") and c["lu"] % 2 == 1:
             # integer components: number / v is the true quotient, as for each component Array
             ints = [[3, -4], [1, 12], [5, 2]]
             v = V(*[np.array(ints[(i + k) % 3], dtype=np.int64 if k % 2 else np.int32) for i in range(c["nl"])], unit=UNITSTR[lu])
@@ -128,6 +128,9 @@ def run_case(rec, k):
                 res, want = -v, [-a for a in cs]
             elif op == "pow2":
                 res, want = v ** 2, [a ** 2 for a in cs]
+            elif op == "powm1f":
+                cs = comps_of(v)
+                res, want = v ** -1.0, [a ** -1.0 for a in cs]
             elif op == "sqrt":
                 v2 = V(*[np.abs(a._array) for a in cs], unit=UNITSTR[lu])
                 res, want = np.sqrt(v2), [np.sqrt(a) for a in comps_of(v2)]
@@ -147,6 +150,17 @@ def run_case(rec, k):
                 res, want = v[::-1], [a[::-1] for a in cs]
             elif op == "copy":
                 res, want = v.copy(), [a.copy() for a in cs]
+            elif op == "to_cm0":
+                # a single point: every component is a 0-d Array (and has no len)
+                v = V(*[float(COMP_VALS[i][0]) for i in range(c["nl"])], unit=UNITSTR[lu])
+                cs = comps_of(v)
+                if dim_of_sparse(SPARSE[lu]) != (1, 0, 0, 0, 0):
+                    try:
+                        v.to("cm")
+                    except Exception:
+                        return "match", None
+                    return "mismatch", f"Vector.to('cm') of a {lu} Vector did not raise"
+                res, want = v.to("cm"), [a.to("cm") for a in cs]
             elif op == "to_cm":
                 if dim_of_sparse(SPARSE[lu]) != (1, 0, 0, 0, 0):
                     try:
@@ -162,6 +176,12 @@ def run_case(rec, k):
                     rb = big.norm
                     if not np.allclose(np.asarray(rb.values, dtype=float), [3e20, 4e25], rtol=1e-6):
                         return "mismatch", f"norm of the 1-component float32 Vector [3e20, -4e25]: {rb.values}"
+                if c["nl"] > 1 and k % 2 == 0:
+                    # an infinite component: the norm is infinite (not undefined)
+                    vi = V(*[np.array([np.inf if i == 0 else 3.0, 4.0]) for i in range(c["nl"])], unit=UNITSTR[lu])
+                    ri = np.asarray(vi.norm.values, dtype=float)
+                    if not (np.isinf(ri[0]) and ri[0] > 0 and abs(ri[1] - 4.0 * c["nl"] ** 0.5) < 1e-12):
+                        return "mismatch", f"norm of a Vector with an infinite component: {ri.tolist()}"
                 res = v.norm
                 sq = [sum(vvals[i][j] ** 2 for i in range(c["nl"])) for j in range(2)]
                 if not isinstance(res, osyris.Array) or sparse_of_pint(res.unit) != SPARSE[lu]:
